@@ -8,6 +8,7 @@ import (
 	"ionsim/drive"
 	"ionsim/model"
 	"ionsim/prng"
+	"ionsim/ref"
 	"ionsim/render"
 	"ionsim/sim"
 )
@@ -136,8 +137,34 @@ func (s navigate) Run(c *Ctx, i int) {
 	data := doc.Out.Bytes
 	base := drive.RunRead(drive.ReadCase{KeepSID: true, Data: data, Plan: planWhole(), Prog: drive.Full, Catalog: cat})
 	c.Steps += int64(base.Reads)
-	if base.Panic != "" || base.Spin || base.Err != "" {
+	if base.Panic != "" || base.Spin {
 		c.Count("docs.rejected-by-plain-traversal(skipped: C02/C03 matter)", 1)
+		return
+	}
+	if base.Err != "" {
+		// The plain traversal fails. Whether it should is not C08's matter — unless a navigation that merely skips values
+		// gets through the same document cleanly: then what the reader returns does depend on how the caller navigated. The
+		// clause is applied only to documents that the renderer produced as valid and the reference decoder accepts.
+		c.Count("docs.rejected-by-plain-traversal(skipped: C02/C03 matter)", 1)
+		var e *ref.Error
+		if doc.Format == "binary" {
+			_, e = ref.DecodeBinary(data, ref.Options{Catalog: cat})
+		} else {
+			_, e = ref.DecodeText(data, ref.Options{Catalog: cat})
+		}
+		if e != nil {
+			return
+		}
+		for _, prog := range fixedPrograms()[:5] {
+			rc := drive.ReadCase{KeepSID: true, Data: data, Plan: planWhole(), Prog: prog, Catalog: cat}
+			oc := drive.RunRead(rc)
+			c.Count("nav.runs", 1)
+			if oc.Err == "" && oc.Panic == "" && !oc.Spin {
+				c.Report("C08", "C08.E", "C08.E/"+doc.Format+"/plain-traversal-fails-skipping-does-not/"+errClass(base.Err),
+					fmt.Sprintf("on a valid document the plain full traversal ends with %q (from %s) while a navigation that skips values reads it to the end without error (%d observations)", base.Err, base.ErrAt, len(oc.Lines)), navCase{Read: rc})
+				break
+			}
+		}
 		return
 	}
 	c.Count("docs."+doc.Format, 1)
@@ -254,8 +281,26 @@ func (s navigate) Replay(c *Ctx, caseJSON []byte) error {
 		return err
 	}
 	base := drive.RunRead(drive.ReadCase{KeepSID: true, Data: cs.Read.Data, Plan: planWhole(), Prog: drive.Full, Catalog: cs.Read.Catalog, SimCatalog: cs.Read.SimCatalog})
-	if base.Panic != "" || base.Spin || base.Err != "" {
-		return nil // not a C08 case: the plain traversal rejects the document
+	if base.Panic != "" || base.Spin {
+		return nil // not a C08 case
+	}
+	if base.Err != "" {
+		// the valid-document clause: plain traversal fails, this navigation does not
+		var e *ref.Error
+		if format(cs.Read.Data) == "binary" {
+			_, e = ref.DecodeBinary(cs.Read.Data, ref.Options{Catalog: cs.Read.Catalog})
+		} else {
+			_, e = ref.DecodeText(cs.Read.Data, ref.Options{Catalog: cs.Read.Catalog})
+		}
+		if e != nil {
+			return nil
+		}
+		oc := drive.RunRead(cs.Read)
+		if oc.Err == "" && oc.Panic == "" && !oc.Spin {
+			c.Report("C08", "C08.E", "C08.E/"+format(cs.Read.Data)+"/plain-traversal-fails-skipping-does-not/"+errClass(base.Err),
+				fmt.Sprintf("on a valid document the plain full traversal ends with %q while this navigation reads it to the end without error", base.Err), cs)
+		}
+		return nil
 	}
 	oc := drive.RunRead(cs.Read)
 	s.check(c, cs.Read, oc, drive.Expected(base.Tree, cs.Read.Prog))
